@@ -28,12 +28,19 @@ pub fn par_for(n: usize, f: impl Fn(usize) + Sync) {
                     if i >= n {
                         break;
                     }
-                    f(i);
+                    // a panic of the subject outside a caught call (e.g. inside a query) must
+                    // not take the engine down: it is reported by the caller's PANICS list
+                    if let Err(msg) = crate::common::catch(|| f(i)) {
+                        PANICS.lock().unwrap().push((i, msg));
+                    }
                 }
             });
         }
     });
 }
+
+/// Panics of the subject that escaped into a work item: (item index, message)
+pub static PANICS: Mutex<Vec<(usize, String)>> = Mutex::new(Vec::new());
 
 pub fn dom_finish(
     prop: &str,
@@ -59,6 +66,18 @@ pub fn dom_finish(
         for (k, v) in o {
             m.insert(k.clone(), v.clone());
         }
+    }
+    let mut col = col;
+    for (i, msg) in PANICS.lock().unwrap().drain(..) {
+        let sig = crate::common::panic_signature(&msg);
+        col.add(
+            Violation::new(
+                crate::oracle::static_prop(prop),
+                format!("panic in a query or unprotected call: {sig}"),
+                format!("work item {i}: {msg}"),
+            ),
+            || json!({"engine": "dom", "check": prop, "work_item": i}),
+        );
     }
     eprintln!(
         "[{prop}] evaluations={evaluations} nontrivial={nontrivial} secs={:.1}",
